@@ -14,6 +14,7 @@ import (
 	"verifharness/drv/c07"
 	"verifharness/drv/c08"
 	"verifharness/drv/c11"
+	"verifharness/drv/c12"
 	"verifharness/drv/c13"
 	"verifharness/drv/c14"
 	"verifharness/drv/c15"
@@ -80,6 +81,8 @@ func main() {
 		c04.Run(os.Args[2], os.Args[3])
 	case "c13":
 		c13.Run(os.Args[2], os.Args[3])
+	case "c12":
+		c12.Run(os.Args[2], os.Args[3])
 	case "c19x":
 		a := os.Args
 		c19.Explicit(a[2], a[3], atoi(a[4]), atoi(a[5]), atoi(a[6]), a[7] == "1")
